@@ -2,6 +2,7 @@ import Rip.Driver.C20
 import Rip.Driver.C12
 import Rip.Driver.C15
 import Rip.Driver.C13
+import Rip.Driver.C14
 
 /-- One case per line: `<property> <case tokens…>` → one observation line. -/
 def dispatch (line : String) : String :=
@@ -14,6 +15,7 @@ def dispatch (line : String) : String :=
     | "c20" => Rip.Driver.C20.handle rest
     | "c12" => Rip.Driver.C12.handle rest
     | "c13" => Rip.Driver.C13.handle rest
+    | "c14" => Rip.Driver.C14.handle rest
     | "c15" => Rip.Driver.C15.handle rest
     | "c15d" => Rip.Driver.C15.handleDec rest
     | "c15u" => Rip.Driver.C15.handleUtf8 rest
